@@ -127,6 +127,41 @@ Definition emit (recs : list record) : bytes := emit_lines (fst (write_all w_ini
 
 End Writer.
 
+(** ** the writer before commit 4949ccf, kept for the record: the "value
+    changed" branch printed nothing when a written file key turned internal *)
+Fixpoint walk_old (have res : list cfg) : list wline * list cfg :=
+  match have with
+  | [] => ([], [])
+  | h :: rest =>
+      let '(ls, hv) := walk_old rest res in
+      match cfg_lookup res (c_key h) with
+      | None => (WDel (c_key h) :: ls, hv)
+      | Some c =>
+          if same_cfg h c then (ls, h :: hv)
+          else ((if c_file c then [WSet (c_key h) (c_val c)] else []) ++ ls,
+                mkCfg (c_key h) (c_val c) (c_file c) :: hv)
+      end
+  end.
+
+Definition write_result_old (w : wstate) (r : result) : list wline * wstate :=
+  let '(cl, hv) :=
+    if needs_config (w_have w) (r_cfg r) then
+      let pre := if w_first w then [] else [WBlank] in
+      let '(l1, hv1) := walk_old (w_have w) (r_cfg r) in
+      let '(l2, hv2) := if (length hv1 =? length (r_cfg r))%nat then ([], hv1) else new_keys (r_cfg r) hv1 in
+      (pre ++ l1 ++ l2 ++ [WBlank], hv2)
+    else ([], w_have w) in
+  (cl ++ [WBench r], mkWstate false hv).
+
+Fixpoint write_results_old (w : wstate) (rs : list result) : list wline :=
+  match rs with
+  | [] => []
+  | r :: rs' => let '(l1, w1) := write_result_old w r in l1 ++ write_results_old w1 rs'
+  end.
+
+Definition emit_old (fmt_g : b64 -> bytes) (rs : list result) : bytes :=
+  emit_lines fmt_g (write_results_old w_init rs).
+
 (** ** API edits of a Result's configuration (Result.SetConfig and direct
     mutation of Config entries, which result.go allows for values and flags) *)
 Inductive cedit :=
